@@ -205,7 +205,10 @@ def run_history(ctx, vfs, iface, app, url_path, file_path, seq, start_frac, zone
                                   f"step {step} {op}: validators of version {j['ver']} (size {j['size']}, mtime {j['m']}) got 304 although the file is "
                                   f"version {cur['ver']} (size {cur['size']}, mtime {cur['m']})")
                 if must_full and st == 200 and h.get("etag") == j["etag"]:
-                    ctx.violation("validators-not-renewed|etag", case, f"step {step} {op}")
+                    if j["size"] == cur["size"] and j["m"] == cur["m"]:
+                        ctx.violation("stale-304|entity-tag|same-size-and-mtime|only-ctime-changed", case, f"step {step} {op}: full response, but it carries the old entity tag again")
+                    else:
+                        ctx.violation("validators-not-renewed|etag", case, f"step {step} {op}")
                 if must_full and st == 200 and int(j["m"]) != int(cur["m"]) and h.get("last-modified") == j["lm"]:
                     ctx.violation("validators-not-renewed|last-modified", case, f"step {step} {op}")
                 if unchanged and base != "lm":
